@@ -47,11 +47,16 @@ type cfCfg struct {
 	reader    string   // comma separated steps of the reader thread
 	racers    []string // one thread each
 	rwq       bool     // ConnectReply.ReplyWithoutQueue
+	wdelay    bool     // ConnectReply.WriteDelay 10 ms (the batching writer goroutine)
 	subs      string   // server-side subscriptions of the connect reply: s1 (positioned) | s2 (plain, join/leave) | s1+s2
 }
 
 func (c cfCfg) name() string {
-	return fmt.Sprintf("%s/R:%s/%s/rwq%v/subs:%s", c.transport, c.reader, strings.Join(c.racers, "+"), c.rwq, c.subs)
+	wd := ""
+	if c.wdelay {
+		wd = "/wdelay"
+	}
+	return fmt.Sprintf("%s/R:%s/%s/rwq%v/subs:%s%s", c.transport, c.reader, strings.Join(c.racers, "+"), c.rwq, c.subs, wd)
 }
 
 var cfCfgs = map[string]cfCfg{}
@@ -94,6 +99,7 @@ func cfVariants(tier string) []vsched.Variant {
 			{"ws", "rpc", "close", "s2", true, 2, 4},
 			{"ws", "none", "pub,ndisc", "s2", false, 1, 2},
 		}, 100)
+		add(cfCfg{transport: "dict", reader: "rpc", racers: []string{"close"}, subs: "s2", wdelay: true}, 2, 4, 100)
 		return out
 	}
 	l := []x{
@@ -132,13 +138,27 @@ func cfVariants(tier string) []vsched.Variant {
 		{"ws", "none", "pub,ndisc", "s2", false, 2, 8},
 	}
 	mk(l, 280)
+	add(cfCfg{transport: "dict", reader: "rpc", racers: []string{"close"}, subs: "s2", wdelay: true}, 2, 4, 280)
+	add(cfCfg{transport: "dict", reader: "rpc", racers: []string{"ndisc"}, subs: "s2", wdelay: true}, 2, 8, 280)
+	add(cfCfg{transport: "ws", reader: "rpc", racers: []string{"close"}, subs: "s2", wdelay: true}, 2, 8, 280)
 	return out
+}
+
+// cfWriterClass: how frames reach the transport (part of the encoder-discipline signatures).
+func cfWriterClass(c cfCfg) string {
+	switch {
+	case c.rwq:
+		return ":reply-without-queue"
+	case c.wdelay:
+		return ":write-delay"
+	}
+	return ":queued"
 }
 
 func init() {
 	vsched.Register(&vsched.Harness{
 		Name: "connfirst", Props: []string{"C11"}, Kind: "sched",
-		Doc:      "node; reader thread: connect command (server-side subscriptions s1 positioned+recoverable and/or s2 plain with join/leave) then optional rpc / transport close (reader steps not starting with connect: the connection is established before the concurrent phase); racing threads from {send: poll Hub().UserConnections(u) + Client.Send, nsub: Node.Subscribe(u, other), pub: Node.Publish to s2 and s1, ndisc: Node.Disconnect(u), close: ClientCloseFunc}; ReplyWithoutQueue on/off; transports: recording vTransport, recording DictionaryAwareTransport double + recording DictionaryConnection, real websocketTransport over an in-memory net.Conn with the recording DictionaryConnection (wire parsed by an independent frame parser); deviation bound 1 (preemptions; thread order at blocking points is free), bound 0 for the variants with many threads in the quick tier; oracle: first message written is the reply to the connect command and no push precedes it; with a dictionary the connect reply frame is raw, every later frame passed through Encode; encoder closed exactly once, no Encode after or overlapping Close",
+		Doc:      "node; reader thread: connect command (server-side subscriptions s1 positioned+recoverable and/or s2 plain with join/leave) then optional rpc / transport close (reader steps not starting with connect: the connection is established before the concurrent phase); racing threads from {send: poll Hub().UserConnections(u) + Client.Send, nsub: Node.Subscribe(u, other), pub: Node.Publish to s2 and s1, ndisc: Node.Disconnect(u), close: ClientCloseFunc}; ReplyWithoutQueue on/off, WriteDelay 0 / 10 ms (batching writer); transports: recording vTransport, recording DictionaryAwareTransport double + recording DictionaryConnection, real websocketTransport over an in-memory net.Conn with the recording DictionaryConnection (wire parsed by an independent frame parser); deviation bound 1 (preemptions; thread order at blocking points is free), bound 0 for the variants with many threads in the quick tier; oracle: first message written is the reply to the connect command and no push precedes it; with a dictionary the connect reply frame is raw, every later frame passed through Encode; encoder closed exactly once, no Encode after or overlapping Close",
 		Variants: cfVariants,
 		Sched:    func(v vsched.Variant) func() { return cfBody(cfCfgs[v.Name]) },
 	})
@@ -348,6 +368,7 @@ func cfBody(cfg cfCfg) func() {
 				Credentials:       &Credentials{UserID: "u"},
 				ReplyWithoutQueue: cfg.rwq,
 				Subscriptions:     subs,
+				WriteDelay:        map[bool]time.Duration{true: 10 * time.Millisecond}[cfg.wdelay],
 			}, nil
 		})
 		n.OnConnect(func(c *Client) {
@@ -400,6 +421,9 @@ func cfBody(cfg cfCfg) func() {
 			}
 		}
 		vsched.WaitIdle()
+		if cfg.wdelay {
+			vsched.SetHorizon(int64(50 * time.Millisecond)) // the batching writer's delay may elapse
+		}
 		vsched.Quiet(false)
 
 		// ---- concurrent phase
@@ -622,7 +646,7 @@ func cfBody(cfg cfCfg) func() {
 		if negotiated {
 			for i := replyWire + 1; i < len(wires); i++ {
 				if !wires[i].encoded {
-					vsched.Failf("raw-frame-after-connect-reply", "dictionary negotiated in the connect reply but wire frame %d was written without the encoder: %s", i, all)
+					vsched.Failf("raw-frame-after-connect-reply"+cfWriterClass(cfg), "dictionary negotiated in the connect reply but wire frame %d was written without the encoder: %s", i, all)
 					break
 				}
 			}
@@ -634,10 +658,10 @@ func cfBody(cfg cfCfg) func() {
 			vsched.Failf("encoder-closed-twice", "DictionaryConnection.Close called %d times", cc.closes)
 		}
 		if cc.afterClose > 0 {
-			vsched.Failf("encode-after-close", "%d Encode calls after DictionaryConnection.Close (reader steps %s, racers %v): %s", cc.afterClose, cfg.reader, cfg.racers, all)
+			vsched.Failf("encode-after-close"+cfWriterClass(cfg), "%d Encode calls after DictionaryConnection.Close (reader steps %s, racers %v): %s", cc.afterClose, cfg.reader, cfg.racers, all)
 		}
 		if cc.overlap > 0 {
-			vsched.Failf("close-overlaps-encode", "DictionaryConnection.Close ran concurrently with Encode %d times: %s", cc.overlap, all)
+			vsched.Failf("close-overlaps-encode"+cfWriterClass(cfg), "DictionaryConnection.Close ran concurrently with Encode %d times: %s", cc.overlap, all)
 		}
 	}
 }
